@@ -19,7 +19,7 @@ Clauses
              multivar.extrapolated_unit (documented leading order p and spacing s restated there; U_x = truncation
              terms of order >= 1 + p + s t of the majorant series at the window heads + rounding at the window
              tails, times sum |rule weights| * sum |Richardson weights|, t = min(2, k_est - 1)); asserted for the
-             short geometric user sequences (step kind 'geo': k_est 3..8, largest step 10^U(-2.5,-0.3) of the
+             short geometric user sequences (step kind 'geo': k_est 3..8, largest step 10^U(-2,-0.3) of the
              certified reach) and the default configuration of central / forward / backward
   grad-row   Gradient(f)(x) == squeeze(Jacobian(f)(x.ravel())) (same configuration), bitwise
   direction  |directionaldiff - grad.v/|v|| <= K_DIR (est_dir + sum_j |v_j| est_j / |v|) + floor, asserted when
@@ -49,7 +49,7 @@ K_DIR = 1e5
 # thorough seed 0, 178 000 cases): central 4.8, complex 0.29, multicomplex (order 2) 8.3, forward 422, backward 31;
 # worst err/R over rounding-dominated entries 2.1e3.
 C_X = {'central': 50.0, 'complex': 3.0, 'multicomplex': 100.0, 'forward': 5e3, 'backward': 500.0}
-C_XR = 1e5
+C_XR = 3e4
 ASSUME_KNOWN = bool(os.environ.get('NVERIF_ASSUME_KNOWN'))     # development aid only, never set by ./check
 OVERFLOW = 1e150
 METHODS = ['central', 'forward', 'backward', 'complex', 'multicomplex']
@@ -106,7 +106,8 @@ def c03_case(draw):
         else:
             base = draw(mv.mv_cases(containers=('0d',), kinds=KINDS))
     case = dict(base, api=api, method=method, order=order, xform=xform, grid=grid,
-                step=draw(mv.step_specs(method, kinds=mv.GEO_KINDS)), full_output=True)
+                step=draw(mv.step_specs(method, kinds=mv.GEO_KINDS_CSTEP if method in ('complex', 'multicomplex')
+                                       else mv.GEO_KINDS)), full_output=True)
     if api == 'directional':
         n = base['prog']['n']
         v = [draw(mv.coefs(-1.0, 1.0)) if draw(st.integers(0, 3)) else 0.0 for _ in range(n)]
